@@ -174,7 +174,7 @@ class SearchKey(Parseable[bytes]):
             buf = buf[match.end(0):]
             match = cls._not_pattern.match(buf)
         try:
-            seq_set, buf = SequenceSet.parse(buf, params)
+            seq_set, buf = SequenceSet.parse(buf, params.copy(uid=False))
         except NotParseable:
             pass
         else:
